@@ -201,6 +201,23 @@ def race_drive(draw, h, cfg):
         h.stats['c08_race_pairs_exhaustive'] += 1
     for i, j in pairs:
         specs.append({'preempt': [[i, 0], [j, 0]], 'first': draw(st.integers(0, 1))})
+    # line-level schedules: every executed line of library code is a scheduling point, so the few lines between a
+    # duplicate check and the reservation that follows it are reachable even if no lock operation separates them
+    h.apply(['restore'])
+    step(h, ['build', vers, fail_at, None, {'sched': {'preempt': [], 'lines': True}}])
+    if h.dead:
+        return
+    NL = ((h.rctx.extra.get('sched_runs') or [{'decisions': 0}])[0])['decisions']
+    if not h.dead:
+        step(h, ['clean'])
+    lb = cfg.get('line_budget', 60)
+    points = list(range(1, NL + 2))
+    if len(points) > lb:
+        points = draw(st.lists(st.sampled_from(points), min_size=lb, max_size=lb, unique=True))
+    else:
+        h.stats['c08_race_lines_exhaustive'] += 1
+    for i in points:
+        specs.append({'preempt': [[i, 0]], 'first': draw(st.integers(0, 1)), 'lines': True})
     for spec in specs:
         if h.dead:
             return
